@@ -32,7 +32,10 @@ def tol_reward(ref):
 # and a second reset of that object starts an identical fresh episode on the unchanged tree). For the others (CVRP family, OP,
 # PCTSP, PDP, MDCPDP, MCP: reset prepends the depot / rewrites instance keys) resetting a consumed object is not supported
 # by the library as it stands, so the reuse workload is not applied to them.
-REUSE_OK = {"tsp", "atsp", "mtsp", "mtvrp", "fjsp", "jssp", "flp", "dpp", "mdpp", "smtwtp"}
+# DPP / MDPP instances carry their initial `action_mask`; stepping writes the current mask into the same object, so a consumed DPP
+# instance starts its next episode with the previous placements still masked (seen once several episodes were chained: the cells
+# run out) - same contract as the CVRP family, not a supported input.
+REUSE_OK = {"tsp", "atsp", "mtsp", "mtvrp", "fjsp", "jssp", "flp", "smtwtp"}
 
 
 def reset_preserves_instance(name, td_in, td0):
@@ -92,9 +95,12 @@ def routing_case(ctx, case, monitors):
     td0_probe = None
     td_pristine = td_in.clone()  # what the oracles read: the instance as handed over, before any episode touched the object
     if case.get("reuse"):
-        # the same instance object is decoded twice without cloning (evaluate a batch, then evaluate it again): the first
-        # episode must leave nothing behind in it; the monitors below watch the SECOND episode
-        run_episode(env, td_in, list(reversed(names)), torch.Generator().manual_seed(seed + 1), max_steps=case.get("max_steps", 6 * max(cfg["n"], case.get("inst_n") or 0) + 30), clone_input=False)
+        # the same instance object is decoded twice (or more often) without cloning (evaluate a batch, then evaluate it again):
+        # the earlier episodes must leave nothing behind in it; the monitors below watch the LAST episode
+        for rep_ in range(int(case.get("reuse_n", 1))):
+            e_ = run_episode(env, td_in, list(reversed(names)), torch.Generator().manual_seed(seed + 1 + rep_), max_steps=case.get("max_steps", 6 * max(cfg["n"], case.get("inst_n") or 0) + 30), clone_input=False)
+            if e_.error is not None or hasattr(e_, "dead_end_at"):
+                break
         ctx.count("reused_instance_objects")
     ep = run_episode(env, td_in, names, gen, max_steps=case.get("max_steps", 6 * max(cfg["n"], case.get("inst_n") or 0) + 30), clone_input=not case.get("reuse"), peek="last_true" if case.get("torchrl") else None)
     if case.get("torchrl"):
@@ -308,9 +314,42 @@ def other_case(ctx, case, monitors):
         pt[torch.arange(B), torch.randint(1, pt.shape[1], (B,), generator=g_)] = 0.0
         td_in["job_process_time"] = pt
         td_in["job_due_time"] = torch.randint(0, 12, pt.shape, generator=g_).float() * (torch.arange(pt.shape[1]) > 0)
+    if case.get("family") == "sentinel" and name in ("fjsp", "jssp"):
+        # completion times that coincide with the env's 9999 "not scheduled yet" marker: the operations of job 0 (and of job 1,
+        # shifted by one unit) have durations adding up to exactly 9999, so a job that runs without waiting finishes AT the marker
+        pt = td_in["proc_times"].clone()
+        so, eo = td_in["start_op_per_job"], td_in["end_op_per_job"]
+        for b in range(B):
+            for j, total in ((0, 9999), (1, 9998)):
+                if j >= so.shape[1]:
+                    continue
+                ops = list(range(int(so[b, j]), int(eo[b, j]) + 1))
+                k = len(ops)
+                for i, o in enumerate(ops):
+                    d = total // k + (total % k if i == k - 1 else 0)
+                    pt[b, :, o] = torch.where(pt[b, :, o] > 0, torch.full_like(pt[b, :, o], float(d)), pt[b, :, o])
+        td_in["proc_times"] = pt
     if case.get("family") == "handbuilt" and name == "mdpp":
         # hand-supplied instance: action_mask encodes only the keep-out layout, probing ports live in the separate probe map
         td_in["action_mask"] = ~td_in["keepout"].bool() if "keepout" in td_in.keys() else td_in["action_mask"] | td_in["probe"].bool()
+    if case.get("family") == "handbuilt" and name == "mcp":
+        # hand-supplied set system (loaded data is not de-duplicated by anybody): an item listed twice in a set, padding zeros in
+        # front of and between the members - a set still covers each of its items once
+        g_ = torch.Generator().manual_seed(seed + 3)
+        mem = td_in["membership"].clone()
+        Bm, Sm, Km = mem.shape
+        for b in range(Bm):
+            for s_ in range(Sm):
+                row = mem[b, s_]
+                real = row[row > 0]
+                if real.numel() >= 1 and Km >= 2 and float(torch.rand(1, generator=g_)) < 0.5:
+                    row = row.clone()
+                    row[-1] = real[0]  # repeat the first member (overwrites a padding slot or the last member)
+                    if real.numel() >= 2:
+                        row[-2 if Km >= 3 else -1] = real[0]
+                perm = torch.randperm(Km, generator=g_)
+                mem[b, s_] = row[perm]
+        td_in["membership"] = mem
     if case.get("family") == "mixed_quota" and name in ("flp", "mcp"):
         key = "to_choose" if name == "flp" else "n_sets_to_choose"
         q = td_in[key].clone()
@@ -327,7 +366,11 @@ def other_case(ctx, case, monitors):
         snap = ["weights", "chosen", "membership"]
     td_keep = td_in.clone()
     if case.get("reuse"):
-        run_episode(env, td_in, list(reversed(names)), torch.Generator().manual_seed(seed + 1), max_steps=case.get("max_steps", 2000), clone_input=False)
+        # (several earlier episodes on the same object: state that accumulates across episodes needs more than one to show)
+        for rep_ in range(int(case.get("reuse_n", 1))):
+            e_ = run_episode(env, td_in, list(reversed(names)), torch.Generator().manual_seed(seed + 1 + rep_), max_steps=case.get("max_steps", 2000), clone_input=False)
+            if e_.error is not None or hasattr(e_, "dead_end_at"):
+                break
         ctx.count("reused_instance_objects")
     ep = run_episode(env, td_in, names, gen, max_steps=case.get("max_steps", 2000), snap_keys=snap, clone_input=not case.get("reuse"), peek="last_true" if use_torchrl else None)
     if use_torchrl:
